@@ -847,8 +847,10 @@ class DMRGBackendImpl(MPSBackendImpl):
 
 def create_impl(data: SequenceData, config: MPSConfig) -> MPSBackendImpl:
 
+    if config.solver == Solver.DMRG:
+        if data.lindblad_ops or data.state_prep_error > 0.0:
+            raise NotImplementedError("DMRG solver does not currently support noise")
+        return DMRGBackendImpl(config, data)
     if data.lindblad_ops:
         return NoisyMPSBackendImpl(config, data)
-    if config.solver == Solver.DMRG:
-        return DMRGBackendImpl(config, data)
     return MPSBackendImpl(config, data)
